@@ -360,12 +360,12 @@ Section Flag.
     (pval_has_custom o = false <-> exists o', RUN fuel (RConstruct kid false interop (omem o) vrefs) = Ok o').
   Proof.
     intros fuel kid interop kw vrefs o Hm Hp Hid H.
-    destruct (run_construct_idem vr ev w pattern_ok selectors_ok Hpad ids Hclosed fuel kid true interop kw vrefs o Hm Hp Hid H)
+    destruct (run_construct_idem vr ev w pattern_ok selectors_ok Hpad ids (closed_ok_weaken vr w ids Hclosed) fuel kid true interop kw vrefs o Hm Hp Hid H)
       as [_ [_ [Hre Hpo]]].
     split.
     - intros Hh.
       pose proof (run_mode vr ev w pattern_ok selectors_ok Hflip ids Hclosed fuel kid true false interop kw vrefs o Hm Hp H Hh) as Hs.
-      destruct (run_construct_idem vr ev w pattern_ok selectors_ok Hpad ids Hclosed fuel kid false interop kw vrefs o Hm Hp Hid Hs)
+      destruct (run_construct_idem vr ev w pattern_ok selectors_ok Hpad ids (closed_ok_weaken vr w ids Hclosed) fuel kid false interop kw vrefs o Hm Hp Hid Hs)
         as [_ [_ [Hre' _]]].
       exists o. exact Hre'.
     - intros [o' Hs].
